@@ -292,8 +292,22 @@ fn run_hist(dir: &Path, h: &Hist) -> HistOut {
         if ci == cf {
             out.verdicts.push(format!("{}\t{}\tSAME\t{} diagnostics", h.id, step, ci.len()));
         } else {
-            let only_inc: Vec<&String> = ci.iter().filter(|x| !cf.contains(x)).collect();
-            let only_fresh: Vec<&String> = cf.iter().filter(|x| !ci.contains(x)).collect();
+            // multiset differences (a stale entry may duplicate a current diagnostic)
+            let msdiff = |a: &Vec<String>, b: &Vec<String>| -> Vec<String> {
+                let mut rest = b.clone();
+                let mut out = Vec::new();
+                for x in a {
+                    match rest.iter().position(|y| y == x) {
+                        Some(i) => {
+                            rest.remove(i);
+                        }
+                        None => out.push(x.clone()),
+                    }
+                }
+                out
+            };
+            let only_inc = msdiff(&ci, &cf);
+            let only_fresh = msdiff(&cf, &ci);
             out.verdicts.push(format!(
                 "{}\t{}\tDIFF\tonly incremental: {:?}; only fresh: {:?}",
                 h.id,
